@@ -139,4 +139,11 @@ def main() -> int:
 
 
 if __name__ == "__main__":
-    sys.exit(main())
+    try:
+        sys.exit(main())
+    except SystemExit:
+        raise
+    except BaseException as ex:  # never a traceback (it would look like exit 1 = violation)
+        tb = traceback.extract_tb(ex.__traceback__)[-1]
+        print(f"ANALYSIS-ERROR checker failed to run: {type(ex).__name__}: {ex} at {tb.filename.split('/')[-1]}:{tb.lineno}")
+        sys.exit(2)
